@@ -23,6 +23,7 @@ from .filter_expressions import FilterExpressionLiteral
 from .filter_expressions import FilterQuery
 from .filter_expressions import FunctionExtension
 from .filter_expressions import LogicalExpression
+from .filter_expressions import PrefixExpression
 from .function_extensions import ExpressionType
 from .function_extensions import FilterFunction
 from .lex import tokenize
@@ -216,8 +217,18 @@ class JSONPathEnvironment:
                         token=token,
                     )
             elif typ == ExpressionType.LOGICAL:
-                if not isinstance(
-                    arg, (FilterQuery, LogicalExpression, ComparisonExpression)
+                if not (
+                    isinstance(
+                        arg,
+                        (
+                            FilterQuery,
+                            LogicalExpression,
+                            ComparisonExpression,
+                            PrefixExpression,
+                        ),
+                    )
+                    or self._function_return_type(arg)
+                    in (ExpressionType.LOGICAL, ExpressionType.NODES)
                 ):
                     raise JSONPathTypeError(
                         f"{token.value}() argument {idx} must be of LogicalType",
